@@ -1,2 +1,54 @@
-(* C13 placeholder *)
-From MPB Require Import Base.
+(* C13 — Text written through the container appears once, in order, above the bars.
+   Statements over every event list accepted by Container.step; proofs in ContainerOut.v
+   and ContainerLife.v.  [wlog] is the ghost log of the lines accepted by write closures
+   (in the order the container goroutine ran them) while output was not being discarded.
+   Modelled, not proved: the bytes of a line (the harness writes tagged lines and the
+   driver turns each output line back into IText w seq line; partial lines, which the
+   container buffers differently, are exercised by the c13 monitor on the byte stream). *)
+From MPB Require Import Base BaseProofs BarState Container ContainerProofs ContainerLife ContainerOut Term.
+
+(* accepted text = text already written ++ text waiting for the next frame: nothing is lost,
+   duplicated or reordered, in any state of any run *)
+Theorem C13_text_once_in_order : forall p a d evs s,
+  run (init_cst p a d) evs = Some s -> delayed s = false ->
+  texts (concat (rev (outframes s))) ++ texts (cwbuf s) = wlog s.
+Proof. exact text_once_in_order. Qed.
+Print Assumptions C13_text_once_in_order.
+
+(* each Write call on the output is [cursor-up] text* row*: text is above the rows of the
+   frame that carries it and never inside a row group *)
+Theorem C13_text_above_rows : forall p a d evs s f,
+  run (init_cst p a d) evs = Some s -> In f (outframes s) ->
+  exists k txt rws, f = cuu_items k ++ txt ++ rws /\ all_text txt = true /\ all_row rws = true.
+Proof. exact text_above_rows. Qed.
+Print Assumptions C13_text_above_rows.
+
+(* the log grows exactly by the lines of each write closure that runs *)
+Theorem C13_write_logged : forall s s' w seq lines rest,
+  step s CT_IO = Some s' -> pend_writes s = (w, seq, lines) :: rest -> delayed s = false ->
+  wlog s' = wlog s ++ text_items w seq 0 (Z.to_nat lines).
+Proof. exact write_logged. Qed.
+Print Assumptions C13_write_logged.
+
+(* after Wait returned no write closure runs and nothing reaches the output *)
+Theorem C13_nothing_after_wait : forall s s1 evs s2,
+  step s CT_EXIT = Some s1 -> run s1 evs = Some s2 -> outframes s2 = outframes s.
+Proof. exact no_output_after_exit. Qed.
+Print Assumptions C13_nothing_after_wait.
+
+Theorem C13_no_write_closure_after_wait : forall s, Quiet s -> ct_exited s = true -> step s CT_IO = None.
+Proof.
+  intros s (P & O & _) X. unfold step, is_idle. rewrite P, X. reflexivity.
+Qed.
+Print Assumptions C13_no_write_closure_after_wait.
+
+Example C13_nonvacuous :
+  exists s, run (init_cst false true false)
+    [CT_OP; CT_ADD 0 0 0 5 None None false false true 0 false; HM_PUSH 0 true 0 false 0;
+     CL_WRITE 7 0 2; CL_WRITE 8 0 1; CT_IO; CT_IO;
+     CT_RENDERBEGIN; HM_SYNC 1 true 0; HM_ITERREQ true 1; CT_RENDERSIZE 80 24;
+     BAR_RENDER 0 0 5 0 false false 0; BAR_OP 0 0 5 0 true false false 0; HM_POP 0 0;
+     CT_FLUSHBAR 0 0 1 false false false; CT_FRAME 1 0;
+     OUT [IText 7 0 0; IText 7 0 1; IText 8 0 0; IRow 0 0 5 false false]] = Some s
+  /\ wlog s = [IText 7 0 0; IText 7 0 1; IText 8 0 0] /\ delayed s = false.
+Proof. eexists. vm_compute. repeat split. Qed.
